@@ -428,7 +428,8 @@ func runPlan(res *core.Result, r *rand.Rand, lp *linkPair, dir wire.Dir, p plan,
 					return false
 				}
 				tail++
-				budget -= 65000
+				// what really went out (a tree that cannot build 65 KB frames sends smaller ones: more of them)
+				budget -= len(sent[len(sent)-1].bytes)
 			}
 			if !waitSent(n + tail) {
 				break
@@ -516,6 +517,9 @@ func runPlan(res *core.Result, r *rand.Rand, lp *linkPair, dir wire.Dir, p plan,
 			// statement, also for a fault the present code happens to ride out (and on a loaded machine an earlier
 			// plan's closure can land here). Counted, not judged; the pair is not used again.
 			res.Count("links_closed_after_non_desynchronising_fault:"+p.kind, 1)
+			if faultDone {
+				res.Count("faults_applied:"+p.kind, 1)
+			}
 			res.Case(fmt.Sprintf("%s|%s|closed", p.field, p.kind), true)
 			return false
 		}
@@ -535,7 +539,7 @@ func runPlan(res *core.Result, r *rand.Rand, lp *linkPair, dir wire.Dir, p plan,
 			rsync = i
 		}
 		if rsync >= len(sent)-3 {
-			res.Violate("link-neither-recovered-nor-closed:"+p.kind, fmt.Sprintf("%s %s: after the fault and %d further intact frames (%d bytes) the link is open but the last frames were not delivered", p, dir, tail, tail*65000), wit)
+			res.Violate("link-neither-recovered-nor-closed:"+p.kind, fmt.Sprintf("%s %s: after the fault and %d further intact frames (more than 100 x 65535 bytes) the link is open but the last frames were not delivered", p, dir, tail), wit)
 			return false
 		}
 		res.Count("desync_recovered", 1)
